@@ -12,7 +12,7 @@ res=/tmp/confirm_$id.result
 echo "seed $id" > $res
 if ! git apply --check $src/$v.diff 2>>$res; then echo "PATCH_DOES_NOT_APPLY" >> $res; cd /; git -C /repo worktree remove --force $wt; exit 1; fi
 cp $src/seed_demo_${v}_test.go $wt/zz_seed_demo_test.go
-run=$(jq -r .demo_test $src/$v.json | sed 's/[^A-Za-z0-9_].*//')
+run=$(jq -r .demo_test $src/$v.json 2>/dev/null | sed 's/[^A-Za-z0-9_].*//')
 [ -z "$run" -o "$run" = null ] && run=TestSeed2
 if go test -mod=mod -vet=off -count=1 -timeout 180s -run "^$run" . >/tmp/confirm_$id.base.log 2>&1; then echo "DEMO_PASSES_ON_BASE=yes" >> $res; else echo "DEMO_PASSES_ON_BASE=no" >> $res; fi
 git apply $src/$v.diff
